@@ -282,6 +282,19 @@ def check_order_and_scope(idx: Index, rep: Report) -> None:
         r.ok(e_.fq, f"{e_.loc} push/pop the same {len(pushed)} naming tables")
     else:
         r.fail(e_.fq, Finding("C04.R6", e_.fq, "scope-tables", f"enter_scope pushes {pushed} but exit_scope pops {popped}", e_.loc))
+    # the parser keeps every enclosing name visible inside an isolated region, so the inner scope must continue from
+    # the enclosing scope's state (counter value, name tables) rather than restart
+    for c in calls_in(e_.node):
+        if call_attr(c) != "append" or len(c.args) != 1:
+            continue
+        tbl = unparse(c.func.value)  # type: ignore[attr-defined]
+        a = c.args[0]
+        base = a.func.value if isinstance(a, ast.Call) and call_attr(a) == "copy" and isinstance(a.func, ast.Attribute) else (a.args[0] if isinstance(a, ast.Call) and unparse(a.func) in ("dict", "set", "list") and len(a.args) == 1 else a)
+        inst = f"{e_.fq}:{tbl}"
+        if unparse(base) == f"{tbl}[-1]":
+            r.ok(inst, None)
+        else:
+            r.fail(inst, Finding("C04.R6", e_.fq, f"scope-restarts:{tbl}", f"enter_scope pushes `{unparse(a)}` on {tbl} instead of the enclosing scope's state `{tbl}[-1]`: names / numbers already used outside are handed out again inside the isolated region, where the parser still sees the outer definitions (`SSA value %0 is already defined`)", f"{e_.module.relpath}:{c.lineno}"))
 
 
 def check_forward_refs(idx: Index, rep: Report) -> None:
@@ -318,6 +331,26 @@ def check_forward_refs(idx: Index, rep: Report) -> None:
             r.fail(f.fq, Finding("C04.R7", f.fq, "placeholder-overwrite", f"`{unparse(st)}` stores a fresh placeholder without first testing whether `{key}` is already a forward reference of this name: a value used twice before its definition gets two placeholders, only the last one is replaced at the definition, and the first use keeps a dangling operand", f"{f.module.relpath}:{st.lineno}"))
     for c in sd:
         r.ok(f.fq, f"{f.module.relpath}:{c.lineno} placeholder registered with setdefault")
+    # forward SSA references resolve across regions (a use inside a nested region may precede the definition in an
+    # enclosing one): the table is never replaced while regions are being parsed
+    mi = idx.module(PARSER)
+    from ..srcindex import raw_funcs
+
+    n_reb = 0
+    for g_ in raw_funcs(mi):
+        for st in walk_local(g_.node):
+            tg = st.targets if isinstance(st, ast.Assign) else [st.target] if isinstance(st, (ast.AnnAssign, ast.AugAssign)) else []
+            for t in tg:
+                if isinstance(t, ast.Attribute) and t.attr == "forward_ssa_references" and unparse(t.value) == "self":
+                    n_reb += 1
+                    scoped = g_.name != "__init__" and any(isinstance(x, ast.Assign) and any(isinstance(tt, ast.Attribute) and tt.attr in ("ssa_values", "blocks", "forward_block_references") for tt in x.targets) for x in walk_local(g_.node))
+                    inst = f"{g_.fq}:forward_ssa_references"
+                    if scoped:
+                        r.fail(inst, Finding("C04.R7", g_.fq, "forward-refs-scoped", f"`{unparse(st)[:80]}` replaces the table of forward SSA references inside the function that opens / closes a region scope: a value used in a nested region before its definition in an enclosing region is registered in a table that is dropped, so the definition never replaces the placeholder", f"{g_.module.relpath}:{st.lineno}"))
+                    else:
+                        r.ok(inst, None)
+    if n_reb == 0:
+        raise AnalysisError("no assignment of Parser.forward_ssa_references found (expected in __init__)")
     # blocks: a forward-referenced block is created once per name
     g = idx.func(PARSER, "Parser._get_block_from_name")
     gfn = g.node
